@@ -55,6 +55,37 @@
 (* in which the rule was needed as a violation with that signature.  Any   *)
 (* other ServiceInCorruptedState stays unexplainable.                      *)
 (*                                                                         *)
+(* FAILING ENVIRONMENT (fault injection, DESIGN.md C06 strengthening).     *)
+(* "Each call terminates with a service or a documented error" and "a      *)
+(* create/open that fails half-way leaves no trace": when a system call of *)
+(* the operation failed (`f` > 0 in the recorded return: the LD_PRELOAD    *)
+(* shim made one libc call of THIS call fail) the call may end with any    *)
+(* documented ENVIRONMENT error (DocErr: the variants of the pattern's     *)
+(* error enum that do not name a requirement of the caller) - and then it  *)
+(* has NO effect on the abstract object (RetEnv) - or it completes as      *)
+(* usual.  Nothing else: a panic / abort is no result at all, and what the *)
+(* failed call left behind shows in the following quiescent observation    *)
+(* and in the results of the following calls of OTHER nodes, which are     *)
+(* explained by the unchanged object only.                                 *)
+(*                                                                         *)
+(* CRASHES.  Crash(t, nd): the process of thread t (node nd) dies.  A call *)
+(* that was pending stays "crashed" for ever: it may or may not have taken *)
+(* effect (LinCrashed, once) and it overlaps every later call, so the      *)
+(* transient errors above stay justified.  The handles of dead nodes are   *)
+(* users until somebody reaps them (Reap: the dead-node cleanup of C04,    *)
+(* any time).  While a dead node exists every documented environment error *)
+(* is an acceptable result (the statement fixes no error kind for a        *)
+(* service whose creator died) - but the call must RETURN: a call that was *)
+(* proven to hang is recorded with the result "Hang", which nothing        *)
+(* explains.  Leftovers after a crash are the subject of C04, not of C06:  *)
+(* the quiescent observation is unconstrained once a node is dead.         *)
+(*                                                                         *)
+(* SERVICE TAGS.  A node carries a service tag (a file in its details      *)
+(* directory) exactly while it holds a handle of the service: `tg` of the  *)
+(* quiescent observation = the nodes of `users`.  A refused or failed call *)
+(* "leaves the service untouched" - including the caller's node.  After    *)
+(* everything was dropped no node directory remains (`dirs` = 0).          *)
+(*                                                                         *)
 (* The configuration of a run (pattern, builder records, defaults) is not  *)
 (* part of the state: `ek` is a small key and Env(ek) the record           *)
 (* [pat, cfgs, dflt] (a constant operator: a table in the model-checking   *)
@@ -68,8 +99,9 @@ Threads == 0..(NThreads - 1)
 VARIABLES svc,    \* [ex, id, lid, c, users, ncr]
           pend,   \* per thread: the pending call
           ek,     \* key of the run configuration
-          gh      \* ghost: [next, seen, ob] - abstract incarnation counter, number of distinct real ids
-                  \* seen, threads whose pending drop is obliged to contain the last user's (KnownDeviation)
+          gh      \* ghost: [next, seen, ob, dead] - abstract incarnation counter, number of distinct real ids
+                  \* seen, threads whose pending drop is obliged to contain the last user's (KnownDeviation),
+                  \* nodes whose process died
 
 avars == <<svc, pend, ek, gh>>
 
@@ -78,7 +110,7 @@ avars == <<svc, pend, ek, gh>>
 Absent == [ex |-> FALSE, id |-> 0, lid |-> 0, c |-> 0, users |-> {}, ncr |-> 0]
 IdleRec == [st |-> "idle", a |-> "-", nd |-> 0, c |-> 0, h |-> 0,
             r |-> "-", id |-> 0, sc |-> 0, v |-> 0, ov |-> {}]
-Gh0 == [next |-> 1, seen |-> 0, ob |-> {}]
+Gh0 == [next |-> 1, seen |-> 0, ob |-> {}, dead |-> {}]
 
 AInit(k) ==
     /\ ek = k
@@ -161,10 +193,10 @@ Outcomes(t) ==
       [] p.a \in {"exist", "list"} -> ExistOutcomes(p)
       [] OTHER -> {}
 
-LinWith(t, o) ==
+LinWithSt(t, o, st) ==
     /\ pend' = [u \in Threads |->
                   IF u = t
-                  THEN [pend[t] EXCEPT !.st = "done", !.r = o.r, !.id = o.id, !.sc = o.sc, !.v = o.v]
+                  THEN [pend[t] EXCEPT !.st = st, !.r = o.r, !.id = o.id, !.sc = o.sc, !.v = o.v]
                   ELSE IF pend[t].a = "drop" /\ o.v = 1 /\ pend[u].st # "idle"
                        THEN [pend[u] EXCEPT !.ov = @ \cup {"lastdrop"}]      \* overlapped by a teardown
                        ELSE pend[u]]
@@ -175,12 +207,51 @@ LinWith(t, o) ==
                   ELSE gh
     /\ UNCHANGED ek
 
+LinWith(t, o) == LinWithSt(t, o, "done")
+
 \* gh.ob: pending drops one of which is obliged (by RetKnownDeviation) to be the last user's drop
 Obliged(t, o) == (pend[t].a = "drop" /\ t \in gh.ob) => (o.v = 1 \/ gh.ob \ {t} # {})
 
 Lin(t) ==
     /\ pend[t].st = "called"
     /\ \E o \in Outcomes(t) : Obliged(t, o) /\ LinWith(t, o)
+
+\* ---------------------------------------------------------------- crashes
+\* the process of thread t (node nd) dies: a pending call is never returned
+Crash(t, nd) ==
+    /\ pend' = [pend EXCEPT ![t] = IF @.st = "called" THEN [@ EXCEPT !.st = "crashed"]
+                                    ELSE IF @.st = "done" THEN [@ EXCEPT !.st = "buried"]
+                                    ELSE @]
+    /\ gh' = [gh EXCEPT !.dead = @ \cup {nd}]
+    /\ UNCHANGED <<svc, ek>>
+
+\* the call the process died in may have taken effect
+LinCrashed(t) ==
+    /\ pend[t].st = "crashed"
+    /\ \E o \in Outcomes(t) : LinWithSt(t, o, "buried")
+
+\* somebody (the dead-node cleanup) removes the handles of the dead nodes
+Reap ==
+    /\ svc.ex /\ NodesOf(svc.users) \cap gh.dead # {}
+    /\ LET u == {x \in svc.users : x[2] \notin gh.dead} IN
+       svc' = IF u = {} THEN Absent ELSE [svc EXCEPT !.users = u]
+    /\ UNCHANGED <<pend, ek, gh>>
+
+Gone(p) == p.st \in {"idle", "crashed", "buried"}
+
+\* ---------------------------------------------------------------- documented environment errors
+EnvCreateErr == {"Interrupt", "ServiceInCorruptedState", "AlreadyExists", "InsufficientPermissions",
+                 "InternalFailure", "IsBeingCreatedByAnotherInstance", "HangsInCreation",
+                 "UnableToCreateServiceTag", "ServiceConfigCouldNotBeCreated", "UnableToAcquireTypeDefinition"}
+EnvOpenErr == {"Interrupt", "DoesNotExist", "InternalFailure", "InsufficientPermissions",
+               "ServiceInCorruptedState", "HangsInCreation", "IsMarkedForDestruction",
+               "UnableToCreateServiceTag", "VersionMismatch", "UnableToAcquireTypeDefinition"}
+DocErr(a) ==
+    CASE a = "create" -> EnvCreateErr
+      [] a = "open"   -> EnvOpenErr
+      [] a = "ooc"    -> {"Open:" \o e : e \in EnvOpenErr} \cup {"Create:" \o e : e \in EnvCreateErr}
+                         \cup {"SystemInFlux"}
+      [] OTHER -> {}
 
 \* ---------------------------------------------------------------- transient documented errors
 Transient(a, r, v, ov) ==
@@ -242,15 +313,44 @@ RetTransient(t, a, r, v) ==
     /\ pend' = [pend EXCEPT ![t] = IdleRec]
     /\ UNCHANGED <<svc, ek, gh>>
 
-Ret(t, a, r, lid, s, v, h) ==
-    RetDone(t, a, r, lid, s, v, h) \/ RetTransient(t, a, r, v) \/ RetKnownDeviation(t, a, r)
+\* a call ends with a documented environment error - without any effect - because a system call of
+\* THIS call failed (f > 0) or because a process died earlier (gh.dead)
+RetEnvGuard(t, a, r, f) ==
+    /\ pend[t].st \in {"called", "withdrawn"} /\ pend[t].a = a
+    /\ f > 0 \/ gh.dead # {}
+    /\ pend[t].st = "withdrawn" => f > 0
+    /\ r \in DocErr(a)
 
-\* quiescent observation: nobody inside a call
-Quiescent(exist, listed, files, shm) ==
-    /\ \A t \in Threads : pend[t].st = "idle"
-    /\ exist = (IF svc.ex THEN 1 ELSE 0)
-    /\ listed = exist
-    /\ ~svc.ex => files = 0 /\ shm = 0
+RetEnv(t, a, r, f) ==
+    /\ RetEnvGuard(t, a, r, f)
+    /\ pend' = [pend EXCEPT ![t] = IdleRec]
+    /\ UNCHANGED <<svc, ek, gh>>
+
+\* A creation whose environment failed AFTER it had become visible to others (who may have seen the name as
+\* existing meanwhile) is withdrawn: the effect of the drop of the handle it would have returned.  The call can
+\* then only end with a documented environment error (RetEnv with f > 0).
+Withdraw(t) ==
+    /\ pend[t].st = "done" /\ pend[t].r = "Ok" /\ pend[t].a \in Creators
+    /\ svc.ex /\ pend[t].id = svc.id /\ <<pend[t].h, pend[t].nd>> \in svc.users
+    /\ LET u == svc.users \ {<<pend[t].h, pend[t].nd>>} IN
+       svc' = IF u = {} THEN Absent ELSE [svc EXCEPT !.users = u]
+    /\ pend' = [pend EXCEPT ![t].st = "withdrawn"]
+    /\ UNCHANGED <<ek, gh>>
+
+Ret(t, a, r, lid, s, v, h, f) ==
+    \/ RetDone(t, a, r, lid, s, v, h) \/ RetTransient(t, a, r, v) \/ RetKnownDeviation(t, a, r)
+    \/ RetEnv(t, a, r, f)
+
+\* quiescent observation: nobody inside a call.  tg = the (live) nodes that carry a service tag, dirs = node
+\* details directories in the domain, final = everything (handles, nodes) was dropped before.
+Quiescent(exist, listed, files, shm, tg, dirs, final) ==
+    /\ \A t \in Threads : Gone(pend[t])
+    /\ gh.dead = {} =>
+         /\ exist = (IF svc.ex THEN 1 ELSE 0)
+         /\ listed = exist
+         /\ ~svc.ex => files = 0 /\ shm = 0
+         /\ ~final => tg = NodesOf(svc.users)
+         /\ final => dirs = 0
     /\ UNCHANGED avars
 
 \* ---------------------------------------------------------------- named invariants
